@@ -582,9 +582,13 @@ MovePatch(F, I, m, pr) ==
 Res(S, I2, hd, hh) == [F |-> S.F, I |-> I2, head |-> hd, hasHead |-> hh, r |-> S.r, t |-> S.t]
 
 Results(op, T) ==
-    CASE op \in {"CL", "RI"} ->
+    CASE op \in {"CL", "RI", "SU"} ->
+            \* "SU": porcelain.submodule_update, first-time checkout of a submodule whose tree is T into the
+            \* (not yet existing) directory W, under the settings of the superproject: the same
+            \* build_index_from_tree as a clone, but reached through another entry point
             LET S == BuildIndexFromTree(fs, T, prot) IN
-            {Res(S, IF S.r = "ok" THEN S.I ELSE idx, IF op = "CL" THEN T ELSE head, IF op = "CL" THEN TRUE ELSE hasHead)}
+            {Res(S, IF S.r = "ok" THEN S.I ELSE idx, IF op \in {"CL", "SU"} THEN T ELSE head,
+                 IF op \in {"CL", "SU"} THEN TRUE ELSE hasHead)}
       [] op \in {"CO", "COF"} ->
             LET S == UpdateWorkingTree(fs, idx, TreeChanges(IF hasHead THEN head ELSE {}, T, FALSE), prot) IN
             {Res(S, IF S.r = "ok" THEN S.I ELSE idx, IF S.r = "ok" THEN T ELSE head, IF S.r = "ok" THEN TRUE ELSE hasHead)}
@@ -603,14 +607,21 @@ Results(op, T) ==
                      IF f[k].k.t = "l" THEN LinkIdx(f[k].k.to) ELSE IF f[k].k.t = "g" THEN GIdx
                      ELSE FileIdx(f[k].k.c, ExecOf(f[k].k))],
                  T, TRUE)}
-      [] op = "ST" ->
+      [] op \in {"ST", "STL"} ->     \* "STL": Stash.pop on one long-lived Stash object (every pop verifies afresh)
             LET S == StashPop(fs, idx, T, prot) IN {Res(S, IF S.r = "ok" THEN S.I ELSE idx, head, hasHead)}
       [] op = "AP" ->
             LET S == ApplyPatch(fs, idx, T, prot) IN {Res(S, S.I, head, hasHead)}
 
+\* history variable (out.lp): the leading directories that pops through the long-lived Stash object have
+\* verified so far.  The design gives it no influence on any result; it only keeps apart the histories in
+\* which an implementation that remembered verified directories across pops would behave differently.
+LeadDirs(T) == LET f == FlatSeq(T) IN UNION {{SubSeq(f[i].p, 1, k) : k \in 1..(Len(f[i].p) - 1)} : i \in 1..Len(f)}
+
 Enabled(op) ==
     /\ op = "CL" => n = 0 /\ prot = [ntfs |-> TRUE, hfs |-> FALSE]   \* the clone runs with a fresh configuration
-    /\ op = "ST" => hasHead
+    /\ op \in {"ST", "STL"} => hasHead
+    /\ op = "SU" => n = 0                                           \* first-time checkout of the submodule
+    /\ out.op # "SU"                                                \* (histories are not continued after it)
     /\ op \in {"RH"} => IdxSane(idx)
 
 Step(op, T) ==
@@ -618,20 +629,20 @@ Step(op, T) ==
     /\ Enabled(op)
     /\ \E res \in Results(op, T) :
         /\ fs' = res.F /\ idx' = res.I /\ head' = res.head /\ hasHead' = res.hasHead
-        /\ out' = [op |-> op, res |-> res.r]
+        /\ out' = [op |-> op, res |-> res.r, lp |-> IF op = "STL" THEN out.lp \cup LeadDirs(T) ELSE out.lp]
         /\ esc' = (esc \/ \E loc \in res.t : ~InWT(loc))
     /\ n' = n + 1
     /\ UNCHANGED prot
 
 Init == /\ fs = InitFS /\ idx = EmptyIdx /\ head = {} /\ hasHead = FALSE
-        /\ prot \in Prots /\ n = 0 /\ out = [op |-> "init", res |-> "ok"] /\ esc = FALSE
+        /\ prot \in Prots /\ n = 0 /\ out = [op |-> "init", res |-> "ok", lp |-> {}] /\ esc = FALSE
 
 \* one rename / copy patch through porcelain.apply_patch (explored when "MV" is among the operations)
 Move(m) ==
-    /\ n < MaxLen /\ "MV" \in Ops /\ m.src # m.dst
+    /\ n < MaxLen /\ "MV" \in Ops /\ m.src # m.dst /\ out.op # "SU"
     /\ LET S == MovePatch(fs, idx, m, prot) IN
         /\ fs' = S.F /\ idx' = (IF S.r = "ok" THEN S.I ELSE idx)
-        /\ out' = [op |-> "MV", res |-> S.r]
+        /\ out' = [op |-> "MV", res |-> S.r, lp |-> out.lp]
         /\ esc' = (esc \/ \E loc \in S.t : ~InWT(loc))
     /\ n' = n + 1
     /\ UNCHANGED <<head, hasHead, prot>>
@@ -751,6 +762,9 @@ TreesNames == {{E(nm, k)} : nm \in NamesAdv, k \in {FB, Lof}}
 
 ProtsDefault == {[ntfs |-> TRUE, hfs |-> FALSE]}
 ProtsQuick == {[ntfs |-> TRUE, hfs |-> FALSE], [ntfs |-> FALSE, hfs |-> FALSE]}
-OpsAll == {"CL", "RI", "CO", "COF", "RH", "RM", "ST", "AP"}
+OpsAll == {"CL", "RI", "CO", "COF", "RH", "RM", "ST", "AP", "SU"}
+\* one long-lived Stash object: pop while d is a directory, d becomes a link, pop again (four operations)
+TreesPop == {{E(<<"d">>, DB)}, {E(<<"d">>, Lod)}, {E(<<"d">>, Lhk)}}
+OpsPop == {"RH", "STL"}
 OpsNoClone == {"RI", "CO", "COF", "RH", "RM", "ST", "AP"}
 =============================================================================
